@@ -625,3 +625,27 @@ def known_for(pid):
     if not os.path.exists(p):
         return []
     return [e for e in json.load(open(p)) if e.get("status") == "open"]
+
+
+def coqchk_stage(res, modules, timeout=3000):
+    """Thorough tier: re-check the compiled modules (and everything they depend on) with the
+    independent checker and record the axioms it reports.  Returns (ok, axioms)."""
+    t0 = time.time()
+    with Lock("coq"):
+        rc, out = sh(["timeout", str(timeout), "coqchk", "-silent", "-o", "-Q", "theories", "Arc", "-Q", "gen", "ArcGen"] + list(modules),
+                     cwd=COQ, timeout=timeout + 30)
+    res.stage("coqchk", t0)
+    summary = out.split("CONTEXT SUMMARY", 1)[1] if "CONTEXT SUMMARY" in out else out[-1500:]
+    m = re.search(r"\* Axioms:\s*(.*?)\n\s*\n\* Constants", summary, re.S)
+    axioms = []
+    if m and "<none>" not in m.group(1):
+        axioms = [l.strip() for l in m.group(1).splitlines() if l.strip()]
+    ok = rc == 0 and "type-in-type: <none>" in summary and "unsafe (co)fixpoints: <none>" in summary and "positivity is assumed: <none>" in summary
+    res.cov["coqchk"] = {"ok": ok, "axioms": axioms, "modules": list(modules)}
+    res.cov["obligations"] += 1
+    bad_ax = [a for a in axioms if a.split(".")[-1] not in ALLOWED_AXIOMS and a not in ALLOWED_AXIOMS]
+    if ok and not bad_ax:
+        res.cov["discharged"] += 1
+        return True, axioms
+    res.notes.append("coqchk failed or reported inadmissible axioms: " + summary[-1200:])
+    return False, axioms
